@@ -44,13 +44,14 @@ PROGRAMS = {
     "stopfirst": {"a1": [("schedule", 1, 1), ("start", 0, 0), ("join", 0, 0)], "a2": [("stop", 0, 0)]},
     "doublestart": {"a1": [("schedule", 1, 1), ("start", 0, 0), ("start", 0, 0), ("stop", 0, 0), ("join", 0, 0)],
                     "a2": [("schedule", 2, 2), ("start", 0, 0)]},
+    "partialstart": {"a1": [("schedule", 2, 2), ("schedule", 1, 1), ("start", 0, 0), ("start", 0, 0), ("stop", 0, 0), ("join", 0, 0)], "a2": []},
     "failing": {"a1": [("start", 0, 0), ("schedule", 1, 1), ("schedule", 2, 1), ("stop", 0, 0), ("join", 0, 0)], "a2": []},
 }
 SCRIPTS = {
     "callback": {(1, 1): [("unschedule", 0, 1)], (2, 2): [("remove", 1, 1), ("schedule", 3, 1)]},
     "lifecycle": {(1, 1): [("stop", 0, 0)]},
 }
-FAIL_START = {"failing": {1}}
+FAIL_START = {"failing": {1}, "partialstart": {1}}
 EV_PER_EM = 2
 
 STATE_KEYS = ("lockOwner", "lockDepth", "watches", "handlers", "emitterFor", "emitters", "em", "nextEm", "obs", "stopFlag", "evq",
@@ -139,7 +140,9 @@ def obs_replay(family, walk_actions, states, init_state, ev_per_em=EV_PER_EM):
                 w = wid(self.watch)
                 if w in box["fail"]:
                     box["fail"].discard(w)
-                    self.failed = True        # the model does not record an emitter whose start failed
+                    # the model does not record an emitter whose start failed inside schedule() (it was never registered);
+                    # one that fails inside start() had been registered by its schedule() and stays on record (stopped)
+                    self.failed = self not in box["obs"]._emitters
                     raise OSError(24, "scripted: emitter cannot be started")
 
             def __hash__(self):
